@@ -13,6 +13,7 @@
 #include "quill/Logger.h"
 #include "quill/sinks/Sink.h"
 
+#include <algorithm>
 #include <atomic>
 #include <chrono>
 #include <map>
@@ -170,6 +171,24 @@ void run_case(Choices& c, Report& r)
       pl.steps.push_back(s);
     }
   }
+  // C17: rounds in which ALL threads create-or-get the SAME new logger name at (nearly) the same moment. Every thread has
+  // one step per round, at generated positions of its plan; a bounded spin barrier lines the calls up.
+  unsigned nshared = (g_prop == "C17" && nthreads >= 2) ? c.pick(5) : 0;
+  for (auto& pl : plans)
+  {
+    std::vector<size_t> pos;
+    for (unsigned k = 0; k < nshared; ++k) pos.push_back(c.pick(static_cast<uint32_t>(pl.steps.size() + 1)));
+    std::sort(pos.begin(), pos.end());
+    for (unsigned k = 0; k < nshared; ++k)
+    {
+      Step s{};
+      s.kind = 5;
+      s.count = k; // round number
+      pl.steps.insert(pl.steps.begin() + static_cast<long>(pos[k] + k), s);
+    }
+    total += nshared;
+  }
+  if (nshared) r.label("same_name_created_by_all_threads_at_once");
   r.line("queue=" + std::to_string(static_cast<int>(RtFrontendOptions::queue_type)) + " cap=" + std::to_string(RT_CAP) + "/" +
          std::to_string(RT_MAX) + " sleep_ns=" + std::to_string(bo.sleep_duration.count()) + " tbuf=" +
          std::to_string(bo.transit_event_buffer_initial_capacity) + " soft=" + std::to_string(bo.transit_events_soft_limit) + " hard=" +
@@ -192,6 +211,21 @@ void run_case(Choices& c, Report& r)
   quill::Backend::start(bo);
 
   std::vector<ThreadResult> res(nthreads);
+  // shared-name rounds: arrival counters of the two barriers and the pointer every thread was handed
+  std::vector<std::atomic<unsigned>> bar_a(nshared), bar_b(nshared);
+  for (auto& a : bar_a) a = 0;
+  for (auto& b : bar_b) b = 0;
+  std::vector<std::vector<RLogger*>> shared_got(nshared, std::vector<RLogger*>(nthreads, nullptr));
+  auto wait_all = [nthreads](std::atomic<unsigned>& a) -> bool
+  {
+    a.fetch_add(1, std::memory_order_acq_rel);
+    auto const t0 = std::chrono::steady_clock::now();
+    while (a.load(std::memory_order_acquire) < nthreads)
+    {
+      if (std::chrono::steady_clock::now() - t0 > std::chrono::milliseconds{2000}) return false;
+    }
+    return true;
+  };
   std::vector<std::thread> ths;
   std::atomic<long> flush_checks{0};
   std::atomic<bool> jitter_done{false};
@@ -303,6 +337,24 @@ void run_case(Choices& c, Report& r)
               R.error = "get_logger(\"" + name + "\") still returns the logger after remove_logger() returned";
             if (RFrontend::get_number_of_loggers() < 1 && R.error.empty()) R.error = "get_number_of_loggers() == 0 while logger \"rt\" is alive";
           }
+          else if (s.kind == 5)
+          {
+            unsigned const round = s.count;
+            std::string name = "shared_r" + std::to_string(round);
+            wait_all(bar_a[round]); // line the calls up (bounded: a late thread simply creates-or-gets later)
+            RLogger* got = RFrontend::create_or_get_logger(name, sink_sp,
+                                                           quill::PatternFormatterOptions{"%(message)", "%H:%M:%S.%Qns", quill::Timezone::GmtTime, false});
+            shared_got[round][t] = got;
+            std::string pad = make_pad(w, seq, 9);
+            bool ok = false;
+            try { ok = got->template log_statement<false, false>(quill::LogLevel::None, &kMd, static_cast<uint16_t>(w), seq, pad); }
+            catch (quill::QuillError const&) { ok = false; }
+            R.accepted.push_back(ok ? 1 : 0);
+            if (ok) last_accepted_plus1 = seq + 1;
+            ++seq;
+            // removed by one thread, and only when every thread is done with it (documented precondition)
+            if (wait_all(bar_b[round]) && t == 0) RFrontend::remove_logger(got);
+          }
           else if (s.kind == 3)
           {
             for (uint32_t i = 0; i < s.count; ++i)
@@ -351,6 +403,18 @@ void run_case(Choices& c, Report& r)
 
   // ---- oracles at quiescence ----
   for (auto const& R : res) if (!R.error.empty()) { r.fail(R.error); break; }
+  for (unsigned round = 0; round < nshared && !r.failed; ++round)
+  {
+    for (unsigned t = 1; t < nthreads; ++t)
+    {
+      if (shared_got[round][t] != shared_got[round][0])
+      {
+        r.fail("create_or_get_logger(\"shared_r" + std::to_string(round) + "\") called by " + std::to_string(nthreads) +
+               " threads at once handed thread 1 and thread " + std::to_string(t + 1) + " DIFFERENT loggers (creation by name is not idempotent)");
+        break;
+      }
+    }
+  }
   std::map<int, std::vector<uint8_t>> accmap = churn_res;
   for (unsigned t = 0; t < nthreads; ++t) accmap[static_cast<int>(t) + 1] = res[t].accepted;
   std::map<int, uint32_t> next;
